@@ -160,8 +160,12 @@ def run_session(rs, rd, sav, load, quit_after=None, cap=4000, quit_in_next=None,
 
 
 def read_omn(path):
-    with open(path, "rb") as f:
-        return [pickle.load(f) for _ in range(5)]
+    """The five pickles of save_session; None when the file is truncated (save_session raised half-way)."""
+    try:
+        with open(path, "rb") as f:
+            return [pickle.load(f) for _ in range(5)]
+    except (EOFError, pickle.UnpicklingError):
+        return None
 
 
 def gen_case(rng, idx):
@@ -209,6 +213,10 @@ def analyse(U, j, a, b, lvl_pt, R1, R2, replay):
     vio = []
     S1, S2 = R1["stream"], R2["stream"]
     rest_level = U["stream"][j + 1:b]
+    if R1["error"]:
+        vio.append({"sig": "C15:interrupted-raises", "what": "the session quit after guess %d raised: %s" % (j + 1, R1["error"]),
+                    "replay": replay})
+        return vio, "bad"
     if S1 != U["stream"][:j + 1]:
         vio.append({"sig": "C15:interrupted-stream", "what": "run quit after guess %d emitted %d guesses, not the first %d of the "
                     "uninterrupted run" % (j + 1, len(S1), j + 1), "replay": replay})
